@@ -557,12 +557,10 @@ cpc_sketch_alloc<A> cpc_sketch_alloc<A>::deserialize(std::istream& is, uint64_t 
     }
     if (!is.good()) throw std::runtime_error("error reading from std::istream");
     if (has_window) {
-      compressed.window_data.resize(compressed.window_data_words);
-      read(is, compressed.window_data.data(), compressed.window_data_words * sizeof(uint32_t));
+      read_in_chunks(is, compressed.window_data, compressed.window_data_words); // no allocation the stream cannot back
     }
     if (has_table) {
-      compressed.table_data.resize(compressed.table_data_words);
-      read(is, compressed.table_data.data(), compressed.table_data_words * sizeof(uint32_t));
+      read_in_chunks(is, compressed.table_data, compressed.table_data_words); // no allocation the stream cannot back
     }
     if (!has_window) compressed.table_num_entries = num_coupons;
   }
